@@ -27,7 +27,13 @@ type runidState struct {
 	params   map[*ssa.Parameter]bool
 	freevars map[*ssa.FreeVar]bool
 	tables   map[*types.Var]bool // map-typed struct fields keyed by run IDs
+	fields   map[*types.Var]bool // string fields (other than those called RunID) that only ever receive run IDs
 	changed  bool
+}
+
+// carries: the field is a RunID field by name, or was found to receive nothing but run IDs.
+func (s *runidState) carries(st *types.Struct, i int) bool {
+	return isRunIDField(st, i) || (s.fields != nil && s.fields[st.Field(i).Origin()])
 }
 
 func isRunIDField(st *types.Struct, i int) bool {
@@ -160,7 +166,7 @@ func (s *runidState) bases(v ssa.Value, seen map[ssa.Value]bool, depth int) []ru
 			break
 		}
 		if st, i, ok := fieldOfAddr(x.X); ok {
-			if isRunIDField(st, i) {
+			if s.carries(st, i) {
 				return []runidBase{{v, true, "a RunID field"}}
 			}
 			return []runidBase{{v, false, "the field " + st.Field(i).Name()}}
@@ -171,7 +177,7 @@ func (s *runidState) bases(v ssa.Value, seen map[ssa.Value]bool, depth int) []ru
 		}
 	case *ssa.Field:
 		if st, i, ok := fieldOfAddr(x); ok {
-			if isRunIDField(st, i) {
+			if s.carries(st, i) {
 				return []runidBase{{v, true, "a RunID field"}}
 			}
 			return []runidBase{{v, false, "the field " + st.Field(i).Name()}}
@@ -209,7 +215,7 @@ func (s *runidState) sinks(fns []*ssa.Function) []runidSink {
 			for _, in := range b.Instrs {
 				switch x := in.(type) {
 				case *ssa.Store:
-					if st, i, ok := fieldOfAddr(x.Addr); ok && isRunIDField(st, i) {
+					if st, i, ok := fieldOfAddr(x.Addr); ok && s.carries(st, i) {
 						out = append(out, runidSink{fn, x, x.Val, "store to a RunID field"})
 					}
 				case *ssa.MapUpdate:
@@ -289,6 +295,43 @@ func (s *runidState) discoverTables(fns []*ssa.Function) {
 	}
 }
 
+// discoverFields: a string field of a struct of the module (a record that carries a run's particulars to the function
+// that runs it) into which nothing but definite run IDs is ever stored carries a run ID, whatever it is called.
+func (s *runidState) discoverFields(fns []*ssa.Function) {
+	stores := map[*types.Var][]ssa.Value{}
+	for _, fn := range fns {
+		for _, b := range fn.Blocks {
+			for _, in := range b.Instrs {
+				st, ok := in.(*ssa.Store)
+				if !ok {
+					continue
+				}
+				if str, i, ok := fieldOfAddr(st.Addr); ok && !isRunIDField(str, i) {
+					f := str.Field(i)
+					if bt, isBasic := f.Type().Underlying().(*types.Basic); isBasic && bt.Kind() == types.String && f.Pkg() != nil && s.c.M.IsRepoPkg(f.Pkg()) {
+						stores[f.Origin()] = append(stores[f.Origin()], st.Val)
+					}
+				}
+			}
+		}
+	}
+	for f, vals := range stores {
+		if s.fields[f] {
+			continue
+		}
+		all := len(vals) > 0
+		for _, v := range vals {
+			if !s.definiteRunID(v) {
+				all = false
+			}
+		}
+		if all {
+			s.fields[f] = true
+			s.changed = true
+		}
+	}
+}
+
 // definiteRunID: every base of v is a RunID field load, a known run-ID parameter or a run-table key.
 func (s *runidState) definiteRunID(v ssa.Value) bool {
 	bs := s.basesNoMark(v)
@@ -342,7 +385,7 @@ func (s *runidState) forward(fns []*ssa.Function) {
 
 // basesNoMark: like bases but without classifying parameters (used for table discovery).
 func (s *runidState) basesNoMark(v ssa.Value) []runidBase {
-	tmp := &runidState{c: s.c, params: map[*ssa.Parameter]bool{}, freevars: map[*ssa.FreeVar]bool{}, tables: s.tables}
+	tmp := &runidState{c: s.c, params: map[*ssa.Parameter]bool{}, freevars: map[*ssa.FreeVar]bool{}, tables: s.tables, fields: s.fields}
 	for p := range s.params {
 		tmp.params[p] = true
 	}
@@ -360,11 +403,12 @@ func (s *runidState) basesNoMark(v ssa.Value) []runidBase {
 
 func (c *Ctx) ruleRunID(rule string, fnset map[*ssa.Function]bool) {
 	fns := c.M.SortedFuncs(fnset)
-	s := &runidState{c: c, params: map[*ssa.Parameter]bool{}, freevars: map[*ssa.FreeVar]bool{}, tables: map[*types.Var]bool{}}
+	s := &runidState{c: c, params: map[*ssa.Parameter]bool{}, freevars: map[*ssa.FreeVar]bool{}, tables: map[*types.Var]bool{}, fields: map[*types.Var]bool{}}
 	var sinks []runidSink
 	for iter := 0; iter < 12; iter++ {
 		s.changed = false
 		s.discoverTables(fns)
+		s.discoverFields(fns)
 		s.forward(fns)
 		sinks = s.sinks(fns)
 		for _, sk := range sinks {
